@@ -272,6 +272,21 @@ fn run_env_hist<const L: usize>(h: &EnvHeader, g: Option<&mut EGen>, fixed: &[EO
     }
 }
 
+fn run_env_long_hist<const L: usize>(h: &EnvHeader, g: &mut EGen, rounds: usize, w: &mut BufWriter<std::io::StdoutLock>) {
+    use bourse_verif_harness::envdrive::run_env_long;
+    if h.kind == "env" {
+        let env = EnvW::<L>(Env::<L>::new(h.t0, h.ticks[0], h.step, h.trading), h.step);
+        run_env_long(h, env, g, rounds, w);
+    } else {
+        macro_rules! go { ($a:literal) => {{
+            let ticks: [u32; $a] = std::array::from_fn(|i| h.ticks[i]);
+            let env = MEnvW::<$a, L>(MarketEnv::<$a, L>::new(h.t0, ticks, h.step, h.trading), h.step);
+            run_env_long(h, env, g, rounds, w);
+        }}; }
+        match h.ticks.len() { 1 => go!(1), 2 => go!(2), 3 => go!(3), 4 => go!(4), n => panic!("unsupported asset count {}", n) }
+    }
+}
+
 fn run_market_hist<const L: usize>(h: &MarketHeader, g: Option<&mut MGen>, fixed: &[MOp], n_ops: usize, scratch: std::path::PathBuf, w: &mut BufWriter<std::io::StdoutLock>) {
     match h.ticks.len() {
         1 => run_market::<1, L, _>(h, g, fixed, n_ops, scratch, w),
@@ -311,6 +326,10 @@ fn env_gen(m: &HashMap<String, String>) {
                    else if (profile == "py" || profile == "npy") && rng.gen::<f64>() < 0.3 { vec![0, 0, 1, 2, 5] }
                    else if rng.gen::<f64>() < 0.5 { vec![1, 2, 3] } else { vec![1, 2, 5, 10] };
         let mut g = EGen { rng, profile: profile.clone(), ticks: tks, base, n_prices: np, vols, step, trading };
+        if profile == "long" {
+            with_env_levels!(l, run_env_long_hist, &h, &mut g, rounds, &mut w);
+            continue;
+        }
         with_env_levels!(l, run_env_hist, &h, Some(&mut g), &[], rounds, &mut w);
     }
     w.flush().unwrap();
